@@ -19,7 +19,9 @@ PROPERTY = "C15"
 RULE = (
     "cases are (segments) lines, quadratic and cubic Beziers incl. the degenerate classes (zero length, coincident or "
     "collinear controls, doubling back, cusps), endpoint- and centre-form arcs (circular and eccentric, any extent) "
-    "x an error setting x an isometry / uniform scale; (paths) generated multi-subpath paths with generated t values. "
+    "x an error setting x an isometry / uniform scale; (paths) generated multi-subpath paths with generated t values; "
+    "(histories) a path, 1..4 steps of [measurements in a generated order, then one of ten mutations of the segment list], "
+    "after every step the path must measure (point, length, bbox) like a fresh copy of itself. "
     "Non-trivial = a curved segment of non-zero length / a path with >= 2 segments of non-zero length; distinct by "
     "the case."
 )
@@ -33,7 +35,7 @@ ASSUMPTIONS = [
     "size and case count are bounded, never time",
 ]
 TOLERANCES = {"accuracy": "max(error, 1e-10 * L)", "metamorphic": "2 * error + 1e-9 * L", "point(t)": "1e-9 * S"}
-MANDATORY_LABELS = {"quick": ["kind:L", "kind:Q", "kind:C", "kind:A-circular", "kind:A-eccentric", "iso:rotate", "iso:reflect", "iso:translate", "iso:scale", "path", "path:zero-length"]}
+MANDATORY_LABELS = {"quick": ["kind:L", "kind:Q", "kind:C", "kind:A-circular", "kind:A-eccentric", "iso:rotate", "iso:reflect", "iso:translate", "iso:scale", "path", "path:zero-length", "history"] + ["mut:%s" % m_ for m_ in ("append", "insert", "del", "pop", "iadd", "extend", "setitem", "reverse", "mulreify", "subimul")]}
 MANDATORY_LABELS["thorough"] = MANDATORY_LABELS["quick"]
 
 
@@ -83,13 +85,116 @@ def decode_path(d, errors):
     return {"kind": "path", "segs": segs, "error": d.choice(errors), "ts": [gen.unit_t(d) for _ in range(5)]}
 
 
+MUTATORS = ["append", "insert", "del", "pop", "iadd", "extend", "setitem", "reverse", "mulreify", "subimul"]
+OBSERVATIONS = ["point", "length", "bbox"]
+
+
+def decode_history(d):
+    """a path, and 1..4 steps, each: some measurements in a generated order, then one mutation of the segment list"""
+    segs = gen.path_segments(d, max_subpaths=2, max_segs=3, c=gen.small_coord, move_led=True)
+    steps = []
+    for _ in range(d.int(1, 4)):
+        obs = [d.choice(OBSERVATIONS) for _ in range(d.int(0, 3))]
+        steps.append({"obs": obs, "mut": d.choice(MUTATORS), "k": d.below(6), "pt": gen.point(d, gen.small_coord), "M": gen.matrix(d, classes=["similarity", "aniso", "reflection", "translate"])["m"]})
+    return {"kind": "history", "segs": segs, "steps": steps, "final": [d.choice(OBSERVATIONS) for _ in range(d.int(1, 3))]}
+
+
 def parts(tier):
     errors = [1e-4, 1e-5, 1e-6] if tier == "quick" else [1e-4, 1e-5, 1e-6, 1e-7]
     n = 700 if tier == "quick" else 3000
     return [
         core.Part("segments", "sampled", lambda: gen.cases(lambda d: decode_seg(d, errors), 160), budget=n),
         core.Part("paths", "sampled", lambda: gen.cases(lambda d: decode_path(d, errors), 512), budget=n // 2),
+        core.Part("histories", "sampled", lambda: gen.cases(decode_history, 640), budget=n, check=check_history),
     ]
+
+
+def measure(p, what, S):
+    """one measurement of a path, or the exception type the library raises for it"""
+    try:
+        if what == "point":
+            return [lib.xy(p.point(t, error=1e-4 * S)) for t in (0.3, 0.8)]
+        if what == "length":
+            return p.length(error=1e-4 * S, min_depth=3)
+        return p.bbox()
+    except Exception as e:
+        if core.library_frame(e.__traceback__) is None:
+            raise
+        return "raises %s" % type(e).__name__
+
+
+def same_measure(a, b, S):
+    if isinstance(a, str) or isinstance(b, str) or a is None or b is None:
+        return a == b
+    if isinstance(a, (int, float)):
+        return abs(a - b) <= 1e-9 * max(S, abs(a), abs(b))
+    flat = lambda v: [x for item in v for x in (item if isinstance(item, (tuple, list)) else (item,))] if isinstance(v, (tuple, list)) else [v]
+    fa, fb = flat(a), flat(b)
+    if len(fa) != len(fb):
+        return False
+    for x, y in zip(fa, fb):
+        if x is None or y is None:
+            if x is not y:
+                return False
+        elif abs(x - y) > 1e-9 * max(S, abs(x), abs(y)):
+            return False
+    return True
+
+
+def check_history(case):
+    """whatever was measured before, after a mutation the path measures like a fresh copy of itself"""
+    se = lib.L()
+    o = core.Obs()
+    p = lib.mk_path(case["segs"])
+    S = lib.scale_of(case["segs"])
+    o.label("history")
+    for n, step in enumerate(case["steps"]):
+        for what in step["obs"]:
+            measure(p, what, S)
+        mut, k, pt, M = step["mut"], step["k"], step["pt"], step["M"]
+        o.label("mut:%s" % mut, "measured-before:%s" % ("yes" if step["obs"] else "no"))
+        try:
+            if mut == "append":
+                p.append(se.Line(None, se.Point(pt[0], pt[1])))
+            elif mut == "insert" and len(p) >= 1:
+                i = 1 + k % len(p)
+                p.insert(i, se.Line(None, se.Point(pt[0], pt[1])))
+            elif mut == "del" and len(p) >= 2:
+                del p[1 + k % (len(p) - 1)]
+            elif mut == "pop" and len(p) >= 2:
+                p.pop()
+            elif mut == "iadd":
+                p += "l %r,%r q 1,1 2,0" % (pt[0], pt[1])
+            elif mut == "extend":
+                p.extend([se.Line(None, se.Point(pt[0], pt[1])), se.Line(None, se.Point(pt[1], pt[0]))])
+            elif mut == "setitem" and len(p) >= 2:
+                i = 1 + k % (len(p) - 1)
+                p[i] = se.Line(p[i].start, se.Point(pt[0], pt[1]))
+            elif mut == "reverse":
+                p.reverse()
+            elif mut == "mulreify":
+                p *= lib.mk_matrix(M)
+                p.reify()
+                S = max(S, S * gen.mat_norm(M) * 2 + abs(M[4]) + abs(M[5]))
+            elif mut == "subimul" and len(p) >= 1:
+                subs = list(p.as_subpaths())
+                if subs:
+                    sub = subs[k % len(subs)]
+                    sub *= lib.mk_matrix(M)
+                    S = max(S, S * gen.mat_norm(M) * 2 + abs(M[4]) + abs(M[5]))
+        except Exception as e:
+            if core.library_frame(e.__traceback__) is None:
+                raise
+            return o.excluded("mutation %s raised %s" % (mut, type(e).__name__))
+        order = case["final"] if n == len(case["steps"]) - 1 else ["point", "length"]
+        fresh = se.Path(p)
+        for what in order:
+            have, want = measure(p, what, S), measure(fresh, what, S)
+            if not same_measure(have, want, S):
+                return o.violation("history:%s:%s" % (mut, what), "after steps %r: %s of the path = %r, of a fresh copy of it = %r (path now %s)" % (
+                    [(s_["obs"], s_["mut"]) for s_ in case["steps"][: n + 1]], what, have, want, p.d()))
+    o.nontrivial = any(step["obs"] for step in case["steps"])
+    return o.ok()
 
 
 # ---- reference -------------------------------------------------------------------------------------------------
